@@ -24,6 +24,13 @@ pub struct ViaIdent { pub generics: Generics<GenericParam<syn::Ident>>, #[darlin
 #[darling(attributes(r))]
 pub struct ViaSyn { pub generics: Generics<syn::GenericParam>, #[darling(default)] pub y: u8 }
 
+#[derive(Debug, FromDeriveInput)]
+#[darling(attributes(r))]
+pub struct ViaResultDerived { pub generics: darling::Result<Generics<GenericParam<TP>>>, #[darling(default)] pub y: u8 }
+#[derive(Debug, FromDeriveInput)]
+#[darling(attributes(r))]
+pub struct ViaResultIdent { pub generics: darling::Result<Generics<GenericParam<syn::Ident>>>, #[darling(default)] pub y: u8 }
+
 /// (kind, name of a type parameter, its `x`) per converted parameter; has-where; names type_params() yields
 type Seen = (Vec<(String, String, u8)>, bool, Vec<String>);
 
@@ -74,6 +81,7 @@ pub fn replay_one(case: &Value) -> (Outcome, String) {
     src.push_str(";");
     let tag = format!("{}/{} <- {}", recv, via, src.replace('\n', " ").trim());
     let di: syn::DeriveInput = match syn::parse_str(&src) { Ok(d) => d, Err(e) => { prop.push(format!("harness: `{}` does not parse: {}", src, e)); return (Outcome { prop, model }, tag) } };
+    let held_err = std::cell::Cell::new(false);
     let run = || -> darling::Result<Seen> {
         let tp = |t: &TP| (t.ident.to_string(), t.x);
         let id = |t: &syn::Ident| (t.to_string(), 0u8);
@@ -81,6 +89,9 @@ pub fn replay_one(case: &Value) -> (Outcome, String) {
             ("derived", "direct") => see_gp(&Generics::<GenericParam<TP>>::from_generics(&di.generics)?, tp),
             ("ident", "direct") => see_gp(&Generics::<GenericParam<syn::Ident>>::from_generics(&di.generics)?, id),
             ("syn", "direct") => see_syn(&Generics::<syn::GenericParam>::from_generics(&di.generics)?),
+            ("derived", "rmember") => match ViaResultDerived::from_derive_input(&di)?.generics { Ok(g) => see_gp(&g, tp), Err(_) => { held_err.set(true); (vec![], wh, vec![]) } },
+            ("ident", "rmember") => match ViaResultIdent::from_derive_input(&di)?.generics { Ok(g) => see_gp(&g, id), Err(_) => { held_err.set(true); (vec![], wh, vec![]) } },
+            ("syn", "rmember") => see_syn(&ViaSyn::from_derive_input(&di)?.generics),
             ("derived", _) => see_gp(&ViaDerived::from_derive_input(&di)?.generics, tp),
             ("ident", _) => see_gp(&ViaIdent::from_derive_input(&di)?.generics, id),
             ("syn", _) => see_syn(&ViaSyn::from_derive_input(&di)?.generics),
@@ -94,6 +105,11 @@ pub fn replay_one(case: &Value) -> (Outcome, String) {
     let bad: Vec<usize> = exp["bad"].as_array().map(|a| a.iter().map(|v| v.as_u64().unwrap() as usize).collect()).unwrap_or_default();
     // parameter i sits on source line i + 2; the receiver's own attribute on line 2
     match (&r, exp["ok"] == true) {
+        (Ok(_), true) if held_err.get() => {
+            // the Result-wrapped member holds the failure; the receiver itself is built
+            if exp["inner_ok"] == true { prop.push(format!("{}: the Result-wrapped generics member holds an error although every parameter converts", tag)); }
+        }
+        (Ok(_), true) if via == "rmember" && exp["inner_ok"] == false => prop.push(format!("{}: the Result-wrapped generics member holds a value although a parameter fails", tag)),
         (Ok((ps, w, tps)), true) => {
             let got: Vec<&str> = ps.iter().map(|p| p.0.as_str()).collect();
             if got != want_kinds { prop.push(format!("{}: parameter kinds {:?}, declared {:?}", tag, got, want_kinds)); }
